@@ -32,6 +32,9 @@ structure Runtime where
   maxQos : Option Nat := none
   nextPing : Option Nat := none     -- µs
   pingTimeout : Option Nat := none  -- µs
+  /-- Ghost (not in the code, never printed): a CONNACK of a resumed session announced a Receive
+  Maximum below the number of publishes that had to be replayed (finding F5c). -/
+  deficit : Bool := false
   deriving Repr, Inhabited
 
 namespace Runtime
